@@ -64,7 +64,8 @@ def build():
             errs[name] = err[-6000:]
         with open(bd.file("errors.json"), "w") as f:
             json.dump(errs, f)
-        bd.mark("conv")
+        if not errs:
+            bd.mark("conv")      # failures (which may be time-outs on a loaded machine) are never cached
     C.prune_builds("conv")
     return bd.path, exes, errs
 
